@@ -180,6 +180,16 @@ theorem tot_bcast {n : Net} (hn : n ∈ w.nets) (s : Addr) (m : Bvll) (f : Nat) 
   · simp only [h, if_true, nodeT, ne_eq, not_false_eq_true]
   · simp only [h, if_false, List.map_nil, List.sum_nil, tot_nil]
 
+/-- a directed broadcast into another network: one generation for the router, then every node there -/
+theorem tot_directed {n nc : Net} (hn : n ∈ w.nets) (hnc : nc ∈ w.nets) (hne : n.id ≠ nc.id)
+    (hcov : nc.covers nc.bcast = true) {z : Node} (hz : z ∈ n.nodes) (s : Addr) (m : Bvll) (f : Nat) :
+    tot po pd (f + 2) w [⟨n.id, s, nc.bcast, m⟩] =
+      (nc.nodes.map fun nd => if nd.addr ≠ s then nodeT po pd f w nc s .bcast m nd else 0).sum := by
+  obtain ⟨h1, h2⟩ := directed_remote hw hn hnc hne hcov hz s m
+  rw [show f + 2 = (f + 1) + 1 from rfl, tot_single, h1, h2]
+  simp only [List.map_nil, List.sum_nil, Nat.zero_add]
+  exact tot_bcast hw po pd hnc s m f
+
 end
 
 end BacVerif.Bip
